@@ -56,3 +56,24 @@ Example C06_monitor_rejects :
 Proof. vm_compute. repeat split. Qed.
 
 Print Assumptions C06_retry_monitor_accepts_every_model_trace.
+
+(* ---- session and request ids (Model/Monitors.v step6ids) ----
+   step6ids rejects a request whose request id has appeared on the wire before (in this check or any earlier one, pings and
+   event reports included) and, inside a check, a request whose session id differs from that of the check's first request.
+   The model's ids are draws from an unbounded counter, put on the wire in order of first appearance; the theorem is over every
+   script, starting with no id drawn yet (the premise on e_guids: the harness starts every case that way). *)
+Require Import Verif.Proofs.C06idsProof.
+Theorem C06_every_attempt_keeps_the_session_id_with_a_fresh_request_id :
+  forall ep cfg url cup apps e, e_trace e = [] -> e_guids e = [] ->
+    accepts step6ids {| i_in := false; i_sess := None; i_reqs := [] |} (run_case ep cfg url cup apps e) = true.
+Proof. exact model_accepted_ids. Qed.
+Definition wids (s r : bytes) : wire :=
+  {| w_uri := []; w_headers := []; w_body := [];
+     w_sum := {| ws_source := ScheduledTask; ws_session := Some s; ws_request := Some r; ws_apps := [] |} |}.
+Example C06_ids_monitor_rejects :
+  let q := {| i_in := true; i_sess := None; i_reqs := [] |} in
+  (accepts step6ids q [AHttp (wids [1%N] [1%N]) (HErr TTransport); AHttp (wids [1%N] [1%N]) (HErr TTransport)] = false) /\
+  (accepts step6ids q [AHttp (wids [1%N] [1%N]) (HErr TTransport); AHttp (wids [2%N] [2%N]) (HErr TTransport)] = false) /\
+  (accepts step6ids q [AHttp (wids [1%N] [1%N]) (HErr TTransport); AHttp (wids [1%N] [2%N]) (HErr TTransport)] = true).
+Proof. vm_compute. repeat split. Qed.
+Print Assumptions C06_every_attempt_keeps_the_session_id_with_a_fresh_request_id.
